@@ -253,10 +253,19 @@ func c09BlockReader(mode, src string, extra ...carv2.Option) func(*c09Ctx) error
 			} else {
 				_, err = br.Next()
 			}
-			if err == io.EOF {
-				return nil
-			}
-			if err != nil {
+			if err == io.EOF || err != nil {
+				// callers loop until io.EOF: the calls after an error (or after the end) are part of
+				// the entry point too — whatever they return, they return
+				for k := 0; k < 2; k++ {
+					if k == 0 && mode != "Next" {
+						_, _ = br.SkipNext()
+					} else {
+						_, _ = br.Next()
+					}
+				}
+				if err == io.EOF {
+					return nil
+				}
 				return err
 			}
 		}
@@ -539,9 +548,13 @@ func c09MakeEPs() []c09EP {
 					c.noProgress = true
 					return errC09NoProgress
 				}
-				if _, err := cr.Next(); err == io.EOF {
-					return nil
-				} else if err != nil {
+				if _, err := cr.Next(); err != nil {
+					// callers loop until io.EOF: two more calls after an error / after the end
+					_, _ = cr.Next()
+					_, _ = cr.Next()
+					if err == io.EOF {
+						return nil
+					}
 					return err
 				}
 			}
